@@ -29,6 +29,9 @@ def process_list(lines, params):
   for line in lines:
     # Remove comments
     line = re.sub(r"#.*", "", line)
+    # A last line without newline must still end its line (it may be duplicated below)
+    if not line.endswith("\n"):
+      line += "\n"
     
     # Evaluate length lines
     m = re.match(r"\s*length\s+(\w+)\s*=\s*(.*)", line)
